@@ -129,6 +129,28 @@ def ops_menu():
         add(f"{X}.solve[builtin]", lambda w, X=X: list(w[X].solve([{"a": 1}, {"c": 1, "a": -1}])))
         add(f"{X}.solve[builtin,reduce]", lambda w, X=X: list(w[X].solve([{"a": 1}], try_reduce_before=True)))
         add(f"{X}.to_ge_polyhedron[T,reduced]", lambda w, X=X: w[X].to_ge_polyhedron(active=True, reduced=True))
+    # calls whose receiver is an object DERIVED by the library (the result of assume / reduce), naming a sub-proposition there: whatever
+    # such a call does to the derived object (finding D3), the source and every other object of the world must stay as they are
+    def derived(X, first, then):
+        def f(w):
+            r = first(w[X])
+            return then(r) if isinstance(r, pg.AtLeast) else ("collapsed", r)
+        return f
+    for X, leaf in (("M", {"c": 1}), ("N", {"d": 0}), ("G", {"c": 1})):
+        sub = {"B": 0} if X != "G" else None
+        for fname, first in (("assume[leaf]", lambda o, leaf=leaf: o.assume(dict(leaf))), ("assume[empty]", lambda o: o.assume({})), ("reduce", lambda o: o.reduce())):
+            def then_eval(r, sub=sub):
+                d = dict(sub) if sub is not None else {next(p.id for p in r.propositions if isinstance(p, pg.AtLeast)): 0}
+                return r.evaluate(d)
+
+            def then_assume(r, sub=sub):
+                d = dict(sub) if sub is not None else {next(p.id for p in r.propositions if isinstance(p, pg.AtLeast)): 0}
+                d = {k_: 1 - v_ for k_, v_ in d.items()}
+                return r.assume(d)
+            add(f"{X}.{fname}>evaluate[sub=0]", derived(X, first, then_eval))
+            if fname != "reduce":
+                add(f"{X}.{fname}>assume[sub=1]", derived(X, first, then_assume))
+    add("K3.assume[partial]>evaluate[rule=0]", lambda w: (lambda r: r.evaluate({"X": 0}) if isinstance(r, pg.AtLeast) else r)(w["K3"].assume({"a": 1})))
     add("from_json(M.to_json)", lambda w: pg.from_json(json.loads(json.dumps(w["M"].to_json()))))
     add("from_json(G.to_json)", lambda w: pg.from_json(json.loads(json.dumps(w["G"].to_json()))))
     add("from_b64(N.to_b64)", lambda w: pg.from_b64(w["N"].to_b64()))
@@ -160,6 +182,9 @@ def ops_menu():
         add(f"{K}.flatten", lambda w, K=K: w[K].flatten())
         add(f"{K}.negate", lambda w, K=K: w[K].negate())
         add(f"{K}.select[builtin]", lambda w, K=K: list(w[K].select({"a": 1}, {"y": 1})))
+        add(f"{K}.to_text", lambda w, K=K: w[K].to_text())
+        add(f"{K}.to_short", lambda w, K=K: w[K].to_short())
+        add(f"{K}.leafs.to_short", lambda w, K=K: [(v.to_short(), v.to_json()) for v in w[K].leafs()])
     return ops
 
 
